@@ -171,7 +171,7 @@ def finish(prop, tier, seed, obs, meta, t0):
         'functions_under_contract': meta.get('functions', []),
         'obligation_list': [{'id': o['id'], 'function': o['function'], 'status': o['status'], 'count': int(o.get('count', 1)), 'backend': o['backend'], 'route': o['route'], 'wall_s': o['wall_s']} for o in obs],
         'solver_wall_s': round(sum(o['wall_s'] for o in obs), 2),
-        'known_findings_seen': [e['what'] for _, e in kf],
+        'known_findings_seen': [{'what': e['what'], 'obligation': o['id'], 'witness': o.get('witness'), 'native_replay': o.get('replay')} for o, e in kf],
         'not_decided': meta.get('not_decided', []),
         'vacuity': meta.get('vacuity', {}),
         'traces_validated_against_impl': meta.get('traces_validated_against_impl', 0),
